@@ -48,7 +48,13 @@ def stream_of(e, f, prog, depth=0):
     """Stream when the expression denotes the token stream of a string, else None"""
     if depth > 6 or e is None:
         return None
-    if isinstance(e, ast.Call) and call_name(e) in TOKENIZERS and e.args:
+    tokenizer_alias = False
+    if isinstance(e, ast.Call) and isinstance(e.func, ast.Name) and e.args:
+        # a local name that is only ever bound to one of the tokenizer functions (the 2/3 switch)
+        ds_ = _defs(f.node, e.func.id)
+        tokenizer_alias = bool(ds_) and all(isinstance(d_, (ast.Attribute, ast.Name)) and
+                                            (d_.attr if isinstance(d_, ast.Attribute) else d_.id) in TOKENIZERS for d_ in ds_)
+    if isinstance(e, ast.Call) and (call_name(e) in TOKENIZERS or tokenizer_alias) and e.args:
         rl = e.args[0]
         if isinstance(rl, ast.Name):
             ds = _defs(f.node, rl.id)
@@ -246,7 +252,22 @@ def token_sites(f, prog):
                         elif isinstance(t_, (ast.Tuple, ast.List)) and isinstance(v_, (ast.Tuple, ast.List)) and len(t_.elts) == len(v_.elts):
                             pairs_.extend(zip(t_.elts, v_.elts))
                         for te_, ve_ in pairs_:
-                            if isinstance(te_, ast.Name) and isinstance(ve_, ast.Name) and stores_.get(te_.id, 0) == 1:
+                            if not (isinstance(te_, ast.Name) and isinstance(ve_, ast.Name)):
+                                continue
+                            single_ = stores_.get(te_.id, 0) == 1
+                            if not single_ and ve_.id in tn.valvars and te_.id != ve_.id:
+                                # the copy is updated in place afterwards (`text = f(text)` under a test): inside those updates and
+                                # the tests in front of them the name still denotes the token text
+                                others_ = [x for st2_ in n.body for x in ast.walk(st2_) if isinstance(x, ast.Assign) and x is not a_ and
+                                           any(isinstance(t2_, ast.Name) and t2_.id == te_.id for t2_ in x.targets)]
+                                loop_assigned_ = set(stores_)
+                                if others_ and len(others_) + 1 == stores_.get(te_.id, 0) and all(
+                                        {y.id for y in ast.walk(o_.value) if isinstance(y, ast.Name)} & loop_assigned_ <= {te_.id} | tn.valvars | tn.typevars
+                                        for o_ in others_):
+                                    tn.valvars.add(te_.id)
+                                    tn.updating = getattr(tn, 'updating', set()) | {te_.id}
+                                continue
+                            if single_:
                                 if ve_.id in tn.typevars:
                                     tn.typevars.add(te_.id)
                                 if ve_.id in tn.valvars:
@@ -358,6 +379,9 @@ def expand_emission(value, facts, loop, g, inside, tn, depth=0):
                         continue
                     new = ast.Tuple(elts=[value.elts[0], e_], ctx=ast.Load())
                     out.append((_norm(new, tn), [f_ for f_ in facts if not (isinstance(f_[0], ast.Compare) and isinstance(f_[0].ops[0], ast.Is))] + fx_))
+            if out and nm in getattr(tn, 'updating', ()):
+                # the path on which no update ran emits the token as it was read
+                out.append((_norm(ast.Tuple(elts=[value.elts[0], ast.Name(id='TOKVAL', ctx=ast.Load())], ctx=ast.Load()), tn), []))
             if out:
                 return out
     return [(_norm(value, tn), facts)]
